@@ -521,8 +521,19 @@ func TestVerif_C17Pipe(t *testing.T) {
 			// recordings are not gated by it and must be left alone
 			cfg.MinDiskMB = 2*availMB(scratch) + 1000
 		}
+		// every fourth connection: files far shorter than the millisecond their names resolve
+		// (1 fps, max-secs 1: two frames each, fed at full speed), in an output directory whose
+		// name contains pattern characters - each file still gets a name of its own
+		tiny := idx%4 == 2
+		if tiny {
+			cam = leptonCamera("lepton3", 16, 12, 1)
+			cfg.MaxSecs = 1
+		}
 		fileLen := cfg.MaxSecs*cam.FPS + 1
 		nf := fileLen * rng.Range(3, 6)
+		if tiny {
+			nf *= 10
+		}
 		frames := genStream(rng, cam, 1, streamOpts{Frames: nf, MotionPct: rng.PickInt(0, 50, 100)})
 		if lowDisk {
 			frames = genStream(rng, cam, 1, streamOpts{Frames: nf, MotionPct: 100})
@@ -560,7 +571,11 @@ func TestVerif_C17Pipe(t *testing.T) {
 		c.Case(idx, func() interface{} {
 			return map[string]interface{}{"fps": cam.FPS, "max_secs": cfg.MaxSecs, "frames": nf, "throttle": cfg.Throttle, "telemetry_frozen": frozen, "window": cfg.WindowStart + "-" + cfg.WindowStop, "test_recording_requests_before_frames": []int{req1, req2}}
 		}, func() {
+			if tiny {
+				prepareOutName = "cptv [site 7] *?"
+			}
 			r, err := prepareConn(scratch, cfg, cam)
+			prepareOutName = ""
 			if err != nil {
 				c.Inconclusive("prepareConn: " + err.Error())
 				return
@@ -573,7 +588,11 @@ func TestVerif_C17Pipe(t *testing.T) {
 				c.Count("pipeline_runs_after_a_reconnect", 1)
 			}
 			var rx int64
-			r.serve(pacedFeed(cam, frames, 2*time.Millisecond), func(name string) {
+			pace := 2 * time.Millisecond
+			if tiny {
+				pace = 0
+			}
+			r.serve(pacedFeed(cam, frames, pace), func(name string) {
 				if name == "conn.frame.received" {
 					k := int(atomic.AddInt64(&rx, 1)) - 1 // index of the frame about to be processed
 					if k == req1 || k == req2 {
@@ -637,6 +656,9 @@ func TestVerif_C17Pipe(t *testing.T) {
 			if idx%4 == 1 {
 				c.Count("runs_with_long_motion_settings", 1)
 			}
+			if tiny {
+				c.Count("runs_with_files_shorter_than_a_millisecond", 1)
+			}
 			if lowDisk {
 				c.Count("pipeline_runs_with_low_disk", 1)
 			}
@@ -681,8 +703,14 @@ func TestVerif_C12Pipe(t *testing.T) {
 		faultFrom := rng.Range(2, nf/3)
 		faultTo := nf - 27 - rng.Range(0, 5)
 		testReq := rng.Range(1, nf-30)
+		longName := idx%6 == 4
+		if longName {
+			// a device name the CPTV header cannot hold: every recording start fails after its file
+			// was created, for every sink, for the whole connection
+			cfg.DeviceName = strings.Repeat("n", 300)
+		}
 		c.Case(idx, func() interface{} {
-			return map[string]interface{}{"stream": pattern, "constant_recorder": cfg.Constant, "fault_kind": []string{"output directory removed", "temp files unlinked mid-recording", "both"}[faultKind],
+			return map[string]interface{}{"stream": pattern, "constant_recorder": cfg.Constant, "device_name_bytes": len(cfg.DeviceName), "fault_kind": []string{"output directory removed", "temp files unlinked mid-recording", "both"}[faultKind],
 				"fault_from_frame": faultFrom, "fault_until_frame": faultTo, "test_recording_request_before_frame": testReq}
 		}, func() {
 			r, err := prepareConn(scratch, cfg, cam)
@@ -746,6 +774,20 @@ func TestVerif_C12Pipe(t *testing.T) {
 			}
 			if got := r.Hooks.counts["conn.frame.processed"]; got != nf {
 				c.Violation("frame-loop-stalled", "", fmt.Sprintf("%d of %d frames processed", got, nf))
+				return
+			}
+			if longName {
+				// no start can have succeeded: nothing may be published as a finished recording
+				fin, _ := filepath.Glob(filepath.Join(r.OutDir, "*.cptv"))
+				fin2, _ := filepath.Glob(filepath.Join(r.OutDir, "constant-recordings", "*.cptv"))
+				if len(fin)+len(fin2) > 0 {
+					c.Violation("recording-published-after-failed-start", "", fmt.Sprintf("every start fails at the header, yet %d finished recordings exist: %v", len(fin)+len(fin2), append(fin, fin2...)))
+					return
+				}
+				c.Count("pipeline_runs_with_failing_header_writes", 1)
+				c.Count("pipeline_fault_runs", 1)
+				c.Count("pipeline_faults_injected", int64(faults))
+				c.Nontrivial(vNewHash().U64(uint64(idx)).Int(faults).Sum())
 				return
 			}
 			// bounded progress: the last, fault-free motion burst must have been recorded normally
